@@ -6,14 +6,25 @@
 use crate::internal::{compiled_dfa::CompiledDfa, SCANNER_CACHE};
 use crate::Scanner;
 
-/// Removes every entry from the process-wide scanner cache.
+/// Removes every entry from the process-wide scanner cache. A poisoned lock (a build panicked
+/// while holding it) is recovered, so that simulated runs stay independent of each other.
 pub fn clear_scanner_cache() {
-    SCANNER_CACHE.write().unwrap().verif_clear();
+    let mut guard = match SCANNER_CACHE.write() {
+        Ok(guard) => guard,
+        Err(poisoned) => poisoned.into_inner(),
+    };
+    guard.verif_clear();
+    drop(guard);
+    #[cfg(not(scnr_verif_shuttle))]
+    SCANNER_CACHE.clear_poison();
 }
 
 /// Returns the number of entries in the process-wide scanner cache.
 pub fn scanner_cache_len() -> usize {
-    SCANNER_CACHE.read().unwrap().verif_len()
+    match SCANNER_CACHE.read() {
+        Ok(guard) => guard.verif_len(),
+        Err(poisoned) => poisoned.into_inner().verif_len(),
+    }
 }
 
 /// A read-only copy of one compiled automaton.
